@@ -22,7 +22,7 @@ func HarnessSnapshotCrash() {
 	vAssert(err == nil, "snapshot: service builds")
 	svc.active = vDeployedBalancer([]string{"a0:80"}, topts)
 	svc.rollout = vDeployedBalancer([]string{"r0:80"}, topts)
-	vAssert(orig.installService(svc) == nil, "snapshot: install")
+	vAssert(vInstall(orig, svc), "snapshot: install")
 	before := append([]byte{}, vStateFile()...)
 	vAssert(len(before) > 0, "snapshot: a snapshot exists after a successful command")
 
@@ -68,6 +68,49 @@ func HarnessSnapshotCrash() {
 	vCover(!crashed, "completed command reachable")
 }
 
+// HarnessSnapshotIOError: one state-changing command during which one step of the snapshot write reports an error
+// (temporary file cannot be created, the disk fills up part-way through the write, close fails, rename fails): the
+// process keeps running, and the state file must still be one complete snapshot - the previous one.
+func HarnessSnapshotIOError() {
+	vSortMode = 0
+	vSnapshotReal = true
+	topts := TargetOptions{HealthCheckConfig: HealthCheckConfig{Path: "/up", Interval: 1000, Timeout: 1000}}
+	orig := NewRouter("/state")
+	svc, err := NewService("svc", ServiceOptions{Hosts: []string{"h"}}, topts)
+	vAssert(err == nil, "snapshot: service builds")
+	svc.active = vDeployedBalancer([]string{"a0:80"}, topts)
+	vAssert(vInstall(orig, svc), "snapshot: install")
+	before := append([]byte{}, vStateFile()...)
+	vAssert(len(before) > 0, "snapshot: a snapshot exists after a successful command")
+	fault := vChoose("fault", 4)
+	switch fault {
+	case 0:
+		vCreateTempFail = true
+	case 1:
+		vWriteFails = true
+	case 2:
+		vCloseFails = true
+	case 3:
+		vRenameFails = true
+	}
+	msg := vString("stop_msg", 2)
+	switch vChoose("command", 3) {
+	case 0:
+		orig.StopService("svc", 0, msg)
+	case 1:
+		orig.PauseService("svc", 0, 1000)
+	case 2:
+		orig.RemoveService("svc")
+	}
+	vCreateTempFail, vWriteFails, vCloseFails, vRenameFails = false, false, false, false
+	onDisk := append([]byte{}, vStateFile()...)
+	vAssert(vJSONEqual(onDisk, before), "snapshot: a snapshot whose write reported an error leaves the previous complete snapshot in place")
+	next := NewRouter("/state")
+	vAssert(next.RestoreLastSavedState() == nil && next.services.Get("svc") != nil, "snapshot: after a failed snapshot write the state file still restores a full configuration")
+	vAssert(vLiveTempFiles() == 0, "snapshot: no temporary snapshot file is left behind")
+	vCover(fault == 1, "short write reachable")
+}
+
 // HarnessSnapshotOverlap (T2): two state-changing commands on different services overlap; once both have returned the
 // file describes the configuration then in force, for every interleaving of their snapshot steps within the bound.
 func HarnessSnapshotOverlap() {
@@ -81,7 +124,7 @@ func HarnessSnapshotOverlap() {
 		svc, err := NewService(n, ServiceOptions{Hosts: []string{n}}, topts)
 		vAssert(err == nil, "overlap: service builds")
 		svc.active = vDeployedBalancer([]string{n + "0:80"}, topts)
-		vAssert(r.installService(svc) == nil, "overlap: install")
+		vAssert(vInstall(r, svc), "overlap: install")
 	}
 	msg := vString("msg", 2)
 	done := 0
@@ -172,7 +215,7 @@ func HarnessSnapshotOverlapDirected() {
 		svc, err := NewService(n, ServiceOptions{Hosts: []string{n}}, topts)
 		vAssert(err == nil, "overlap: service builds")
 		svc.active = vDeployedBalancer([]string{n + "0:80"}, topts)
-		vAssert(r.installService(svc) == nil, "overlap: install")
+		vAssert(vInstall(r, svc), "overlap: install")
 	}
 	vSnapshotLockOf = r
 	msg := vString("msg", 2)
